@@ -291,6 +291,15 @@ def rt_ctrl(ctx, p):
         return
     ctx.state((b,))
     check_roundtrip(ctx, b, {'family': 'round trip: control programs'})
+    # the documented encoding of the same program (what the compiler produces, property C11): checked as well, so that
+    # a compiler that mis-assembles a source cannot hide a listing that does not reproduce its bytes
+    try:
+        b2 = refasm.encode_prog(prog)
+    except BaseException:
+        return
+    if b2 != b:
+        ctx.state((b2,))
+        check_roundtrip(ctx, b2, {'family': 'round trip: control programs'})
 
 
 def rt_vector(ctx, path):
